@@ -6,22 +6,22 @@ H == <<72>>
 O == <<79>>
 Pt == <<80, 116>>
 Sp(n, ph, site, bulk, occ, els) == [name |-> n, ph |-> ph, site |-> site, bulk |-> bulk, occ |-> occ, els |-> els]
-\* A  B2  C(S)  D*  M(B)  E(T)  N(B)
+\* A  B-2  C(S,T)  D*  M(B)  E(T)  N(B)   (hyphen and comma inside names; site PT-111)
 MCPool == << Sp(<<65>>, "G", 0, FALSE, 0, <<H>>),
-             Sp(<<66, 50>>, "G", 0, FALSE, 0, <<H, O>>),
-             Sp(<<67, 40, 83, 41>>, "S", 1, FALSE, 1, <<H, Pt>>),
+             Sp(<<66, 45, 50>>, "G", 0, FALSE, 0, <<H, O>>),
+             Sp(<<67, 40, 83, 44, 84, 41>>, "S", 1, FALSE, 1, <<H, Pt>>),
              Sp(<<68, 42>>, "S", 1, FALSE, 2, <<O, Pt>>),
              Sp(<<77, 40, 66, 41>>, "S", 1, TRUE, 1, <<Pt>>),
              Sp(<<69, 40, 84, 41>>, "S", 2, FALSE, 1, <<H, Pt>>),
              Sp(<<78, 40, 66, 41>>, "S", 2, TRUE, 1, <<Pt>>) >>
-\* PT111 / M(B),  T2 / N(B)
-MCSites == << [name |-> <<80, 84, 49, 49, 49>>, bulk |-> <<77, 40, 66, 41>>],
+\* PT-111 / M(B),  T2 / N(B)
+MCSites == << [name |-> <<80, 84, 45, 49, 49, 49>>, bulk |-> <<77, 40, 66, 41>>],
               [name |-> <<84, 50>>, bulk |-> <<78, 40, 66, 41>>] >>
 \* a pool whose first gas species is called 2A (starts with a digit): ReadBack must fail
 MCPoolDigit == << Sp(<<50, 65>>, "G", 0, FALSE, 0, <<H>>),
                   Sp(<<66, 50>>, "G", 0, FALSE, 0, <<H, O>>),
                   Sp(<<67, 40, 83, 41>>, "S", 1, FALSE, 1, <<H, Pt>>) >>
-\* small pool for the replayed cases: A  B2  C(S)  M(B)  E(T)
+\* small pool for the replayed cases: A  B-2  C(S,T)  M(B)  E(T)
 MCPoolSmall == << MCPool[1], MCPool[2], MCPool[3], MCPool[5], MCPool[6] >>
 \* species delimiters "+" and " + ";  reaction delimiters "=", "<=>", "=>", " = "
 MCSDelims == {<<43>>, <<32, 43, 32>>}
